@@ -22,15 +22,17 @@ class Bar:
         # Adjust sequence
         self.sequence.normalise()
 
+        # Capacity and current duration of the bar, both in ticks
+        capacity = int(self.time_signature_numerator * PPQN / (self.time_signature_denominator / 4))
+        duration = sum(msg.time for msg in self.sequence.messages_rel() if msg.message_type == MessageType.WAIT)
+
         # Assert bar has correct capacity
-        if self.sequence.get_sequence_duration_relation() > self.time_signature_numerator * PPQN / (
-                self.time_signature_denominator / 4):
+        if duration > capacity:
             raise BarException("Bar capacity exceeded")
 
         # Pad bar
-        if self.sequence.get_sequence_duration_relation() < self.time_signature_numerator * PPQN / (
-                self.time_signature_denominator / 4):
-            self.sequence.pad(self.time_signature_numerator * PPQN / (self.time_signature_denominator / 4))
+        if duration < capacity:
+            self.sequence.pad(capacity)
 
         # Assert time signature is consistent
         time_signatures = [msg for msg in self.sequence.messages_rel() if
